@@ -167,6 +167,8 @@ fn dml_cfg(g: &GenCfg, t: &mut Tape, fks: bool) -> DmlCfg {
         key_updates: true,
         inline_fk: false,
         setnull_on_notnull: false,
+        replace: false,
+        odku: false,
     }
 }
 
